@@ -2,6 +2,7 @@
    The per-type class table and the README lists are regenerated from the source on every run. *)
 From Coq Require Import List NArith Bool.
 From LB Require Import Tables Framing FramingProofs Rx DispatchTab AccessTab Dispatch DispatchProofs.
+From LB Require LockLang LockCfg LockSem LockQueues.
 Import ListNotations.
 Local Open Scope N_scope.
 
@@ -69,3 +70,16 @@ Example C06_nonvacuous :
   length q' = 126%nat /\ popped = [[2]; [3]] /\
   dest_of false MSG_BOOST_STAT [BIDIB_BST_STATE_OFF_SHORT] = ToErrQ /\ dest_of false MSG_BOOST_STAT [BIDIB_BST_STATE_ON] = ToState.
 Proof. vm_compute. repeat split. Qed.
+
+(* readers racing the receiver: the three receiver-filled queues are touched only under their own mutex on every
+   path of every public function except the two start functions, which create the queues before any thread exists
+   (thread-safe or not: the receiver thread runs alongside bidib_send_sys_reset and bidib_stop too) and of the library's own threads; lock programs regenerated from the source on every run *)
+Theorem C06_queue_access_guarded : forall f p pre g wr l rest,
+  In f (LockCfg.running_entries ++ LockCfg.thread_mains) -> LockLang.run_call LockCfg.body LockCfg.call_depth [] f p ->
+  p = pre ++ LockLang.AAcc g wr :: rest -> In g LockCfg.queue_globals -> LockCfg.guard g = Some l ->
+  exists H w, LockLang.acts_ok LockCfg.rank LockQueues.queue_guard [] pre = Some H /\ In (l, w) H /\ (wr = true -> w = true).
+Proof. exact LockQueues.queue_access_guarded. Qed.
+Print Assumptions C06_queue_access_guarded.
+Example C06_queue_globals_nonvacuous : (3 <= length LockCfg.queue_globals)%nat /\ forallb (fun g => match LockCfg.guard g with Some _ => true | None => false end) LockCfg.queue_globals = true.
+Proof. vm_compute. split; [repeat constructor|reflexivity]. Qed.
+
